@@ -288,7 +288,12 @@ def validate_translator(run):
 
 def main(tier):
     run = Run(PID, tier)
-    mism = validate_translator(run)
+    try:
+        mism = validate_translator(run)
+    except CannotEncode as e:
+        # the current sources use something engine K cannot encode: the K obligations below will say so one by one; whatever other
+        # conditions the check has still run
+        mism = [('translator validation not possible', str(e))]
     if mism:
         run.inconclusive.append({'name': 'translator-validation', 'status': INCONCLUSIVE, 'error': str(mism[:3])})
     second = 'cvc5' if tier == 'thorough' else None
@@ -334,9 +339,15 @@ def main(tier):
                 r['status'] = INCONCLUSIVE
                 r['error'] = f'counterexample did not reproduce on the real code: {rec}'
                 run.inconclusive.append(r)
+    from vlib import xprop
+    xprop.run_jobs(run, [dict(path='/verif/xh/h_c02.py', fname='_c02_unbalanced', params={}, timeout=300, self_reach=True, unblock=['open'],
+                              label='beyond the symbolic length bound (pooled): 0-2 elements against 17 / 40 / 100, all 36 dtype pairs, both orders',
+                              bounds={'lengths': '0, 1, 2 against 17, 40, 100', 'values': 'consecutive runs ending at the top of the common range of the two types, at 2^53 + 130, and at 150',
+                                      'overlap': 'none / first / last / middle / both ends', 'dtype pairs': 'all 36, both argument orders', 'functions': 'jaccarddist and jaccard', 'kind': 'solver-enumerated pool, real kernels run natively'})],
+                   rung='X: pooled unbalanced arrays on the real functions')
     run.bounds = {'array lengths': 'n,m <= 3 (quick) / <= 5 for (u8,u8),(u2,u8),(u8,u2), <= 4 other unsigned pairs, <= 3 all 36 pairs (thorough)',
                   'elements': 'every value of the dtype (strictly increasing, non-negative)', 'float stage': 'every N,M,u with N+M < 2^24'}
-    run.outside = ['arrays longer than the bounds', 'sets with 2^24 or more elements', 'Cython-generated buffer acquisition / fused dispatch code itself']
+    run.outside = ['arrays longer than the bounds (apart from the pooled unbalanced pairs of the X condition)', 'sets with 2^24 or more elements', 'Cython-generated buffer acquisition / fused dispatch code itself']
     run.assumptions = ['inputs sorted strictly increasing and non-negative (the property\'s precondition)',
                        'assume-guarantee cut after the merge loop: stage 1 proves (N,M,u) = (|a|,|b|,|a|+|b|-#common); stage 2 quantifies over all such triples',
                        'float32 semantics = SMT-LIB FloatingPoint RNE (x86-64 SSE, FLT_EVAL_METHOD 0)']
